@@ -294,6 +294,27 @@ func streamC16(r *Rand, n int, o *Out) {
 				}
 			}
 		}
+		if base != "" {
+			// default scheme through ParseRef: only the BASE may be retried, and only for lack of a scheme
+			orc.Eval("C16")
+			u, err := mkp(profDef)
+			_, berr := url.Parse(base)
+			switch {
+			case berr == nil:
+				if !sameResult(u, err, du, derr) {
+					orc.Fail("C16", "default-scheme-affects-absolute", "default-scheme changed ParseRef with a base that parses", tokOf())
+				}
+			case errors.Type(berr) == errors.MissingSchemeNonRelativeURL:
+				v, verr := url.ParseRef("https://"+base, in)
+				if !sameResult(u, err, v, verr) {
+					orc.Fail("C16", "default-scheme-retry", "ParseRef result differs from resolving against https://base", tokOf())
+				}
+			default:
+				if err == nil {
+					orc.Fail("C16", "default-scheme-other-error", "a base failing for another reason was accepted", tokOf())
+				}
+			}
+		}
 		// documented effects
 		if rr.P(40) {
 			orc.Eval("C16")
@@ -513,6 +534,7 @@ func genWebUrl(r *Rand) WebUrl {
 type Spelling struct {
 	EncPct      int  // percent of unreserved characters written as escapes
 	Nest        int  // extra nesting levels of '%' -> %25
+	NestHex     bool // a nesting level may also escape hex digits of an escape (%7E -> %7%45 -> %257%2545)
 	EncCreds    bool // also in credentials
 	SchemeCase  bool
 	HostCase    bool
@@ -524,16 +546,30 @@ type Spelling struct {
 	EmptyFrag   bool
 }
 
+func pct(r *Rand, b byte) string {
+	e := fmt.Sprintf("%%%02X", b)
+	if r.P(50) {
+		e = strings.ToLower(e)
+	}
+	return e
+}
+
 func encUnreserved(r *Rand, s string, sp Spelling) string {
 	var sb strings.Builder
 	for i := 0; i < len(s); i++ {
 		if r.P(sp.EncPct) {
-			e := fmt.Sprintf("%%%02X", s[i])
-			if r.P(50) {
-				e = strings.ToLower(e)
-			}
+			e := pct(r, s[i])
 			for k := 0; k < sp.Nest; k++ {
-				e = strings.ReplaceAll(e, "%", "%25")
+				// a further level: every '%' of the text is escaped, and sometimes a hex digit of an escape as well
+				var nb strings.Builder
+				for j := 0; j < len(e); j++ {
+					if (e[j] == '%' && !(sp.NestHex && r.P(25))) || (e[j] != '%' && sp.NestHex && r.P(35)) {
+						nb.WriteString(pct(r, e[j]))
+					} else {
+						nb.WriteByte(e[j])
+					}
+				}
+				e = nb.String()
 			}
 			sb.WriteString(e)
 		} else {
@@ -660,6 +696,7 @@ func randomSpelling(r *Rand, groupG bool) Spelling {
 		if r.P(60) {
 			sp.EncPct = []int{10, 30, 100}[r.N(3)]
 			sp.Nest = r.N(3)
+			sp.NestHex = r.P(40)
 			sp.EncCreds = r.P(30)
 		}
 		if sp.DotSegs > 0 {
@@ -709,7 +746,34 @@ func checkIdem(h *Hist, p *Prof, in string, webGrammar bool) {
 	orc.Fail("C17", class, fmt.Sprintf("%s: %s -> %s; %s", p.Name, q(in), q(s1), what), strings.Join(h.ops, " ; "))
 }
 
+func decoderLeaves(r *Rand, n int, o *Out) {
+	for i := 0; i < n; i++ {
+		rr := r.Fork()
+		plain := rr.Pick(segPool) + genUnreserved(rr, 0, 4) + rr.Pick([]string{"", "~", "%", "%7", "/", "?", "a b"})
+		s := encUnreserved(rr, plain, Spelling{EncPct: []int{20, 60, 100}[rr.N(3)], Nest: rr.N(4), NestHex: rr.P(60)})
+		set := []*url.PercentEncodeSet{url.HostPercentEncodeSet, canonicalizer.LaxPathPercentEncodeSet, canonicalizer.RepeatedQueryPercentDecodeSet}[rr.N(3)]
+		leafSimple(o, "LRD", xs(s), xs(canonicalizer.VerifRepeatedDecode(s)))
+		leafSimple(o, "LDE", setTok(set)+" "+xs(s), xs(canonicalizer.VerifDecodeEncode(s, set)))
+		// property level: any nested spelling of unreserved text canonicalizes like the plain text
+		un := genUnreserved(rr, 1, 5)
+		sp2 := encUnreserved(rr, un, Spelling{EncPct: []int{30, 100}[rr.N(2)], Nest: 1 + rr.N(3), NestHex: true})
+		p := []*Prof{profGSB, profSemantic}[rr.N(2)]
+		a, b := "http://example.com/a/"+un+"/b?k="+un, "http://example.com/a/"+sp2+"/b?k="+sp2
+		orc.Eval("C18")
+		u1, e1 := p.Parser.Parse(a)
+		u2, e2 := p.Parser.Parse(b)
+		if (e1 != nil) != (e2 != nil) || (e1 == nil && u1.String() != u2.String()) {
+			h := &Hist{}
+			h.CanonParse(p, a)
+			h.CanonParse(p, b)
+			o.EmitHist("v", h)
+			orc.Fail("C18", "nested-escape-not-decoded", fmt.Sprintf("%s: %s and %s canonicalize differently", p.Name, q(a), q(b)), strings.Join(h.ops, " ; "))
+		}
+	}
+}
+
 func streamC17(r *Rand, n int, o *Out) {
+	decoderLeaves(r.Fork(), n/8, o)
 	for i := 0; i < n; i++ {
 		rr := r.Fork()
 		h := &Hist{}
@@ -754,6 +818,7 @@ func streamC17(r *Rand, n int, o *Out) {
 // ---- C18 ---------------------------------------------------------------------------------------------------
 
 func streamC18(r *Rand, n int, o *Out) {
+	decoderLeaves(r.Fork(), n/8, o)
 	for i := 0; i < n; i++ {
 		rr := r.Fork()
 		w := genWebUrl(rr)
